@@ -85,7 +85,7 @@ theorem C07_elements_nodup (t : List Table.Row) :
         | none => exact Table.nodup_addUniq _ _ h
         | some n => exact Table.nodup_addUniq _ _ (Table.nodup_addUniq _ _ h)
     exact this t [] List.nodup_nil
-  · exact Table.nodup_foldl_addUniq (·.ev) t [] List.nodup_nil
+  · exact Table.nodup_foldl_addUniq (·.ev) _ [] List.nodup_nil
   · unfold Table.actions
     have : ∀ (rows : List Table.Row) (init : List Str), init.Nodup → (rows.foldl Table.actionsStep init).Nodup := by
       intro rows
